@@ -11,6 +11,8 @@ def ev(event):
     if event is None:
         return None
     uid = event.data.get('uid') if hasattr(event, 'data') else None
+    if hasattr(event, 'data') and 'items' in event.data:
+        return (event.name, uid, len(event.data['items']))      # a mutable payload: what it holds when the code looks at it
     return (event.name, uid)
 
 
@@ -75,6 +77,15 @@ class Probe:
         else:
             send(name, uid=self.uid, tag='t%d' % self.uid, delay=delay)
 
+    def sendw(self, send, name, delay, items):
+        """an event that carries a mutable object of the context (the list w itself, not a copy)"""
+        self.uid += 1
+        self.log.append(('send', self.uid, name, delay))
+        if delay is None:
+            send(name, uid=self.uid, tag='t%d' % self.uid, items=items)
+        else:
+            send(name, uid=self.uid, tag='t%d' % self.uid, delay=delay, items=items)
+
     def anon(self, send, name, delay):
         """an event without any distinguishing parameter: two of them compare equal"""
         self.log.append(('anon', None, name, delay))
@@ -90,7 +101,12 @@ class Probe:
 
     def cond(self, j, v, old, event, *flags):
         self.cond_n += 1
-        e = ('cond', j, v, None if old is None else (old.v, len(old.w), len(old.u[0]), old.box.n), ev(event), self.cond_n)
+        if old is not None:
+            # __old__ is a read-only mapping of the variables as they were: a variable that did not exist then is absent,
+            # whichever way one asks
+            absent = (old.get('nosuch_variable', 7) == 7 and 'nosuch_variable' not in old
+                      and getattr(old, 'nosuch_variable', 7) == 7 and 'v' in old and old['v'] == old.v)
+        e = ('cond', j, v, None if old is None else (old.v, len(old.w), len(old.u[0]), old.box.n, absent), ev(event), self.cond_n)
         self.log.append(e + (flags,) if flags else e)
         self._hook('cond')
         if self.fail_at is not None and self.cond_n == self.fail_at:
